@@ -1,6 +1,6 @@
 (** C04 (glue part, stdlib style): noise assembly by name. *)
 From Coq Require Import String List Bool Arith QArith.
-From FV Require Import Base.Expr Base.ListMat Model.Named.
+From FV Require Import Base.Expr Base.ListMat Base.Store Model.Named gen.NoisePy Proofs.NoisePy.
 Import ListNotations.
 
 (** M is the diagonal matrix of the per-control noise supplied by name (symbol keys), symmetric *)
@@ -19,6 +19,12 @@ Theorem C04_process_noise_symmetric : forall controls d i j,
   option_map (fun row => nth_error row i) (nth_error (py_noise_matrix controls d) j).
 Proof. exact noise_matrix_symmetric. Qed.
 
+(** the double loop of _construct_process, as translated from the source on this run (gen/NoisePy.v: np.eye, the
+    two enumerate loops, the if/elif chain, the two stores), fills exactly that matrix - for every control list
+    and every noise dictionary, pair keys included *)
+Theorem C04_noise_loop_is_closed_form : forall controls d, py_noise_loop controls d = py_noise_matrix controls d.
+Proof. exact py_noise_loop_is_closed_form. Qed.
 
 Print Assumptions C04_process_noise_by_name.
+Print Assumptions C04_noise_loop_is_closed_form.
 Print Assumptions C04_process_noise_symmetric.
